@@ -533,6 +533,35 @@ def l_seeded(seed, n, cont_only=False, maxn=3, maxm=3, coefs=None, rhss=None, na
     return out
 
 
+def nested_family():
+    """piecewise operators directly inside one another, in every value context: as a term of the objective in
+    both directions and with both signs (the lower- and the higher-favourable position), and under <=, >=, = with
+    constants on both sides of the operand's range. What the outer operator asks of its operand (exact, an upper
+    estimate, a lower estimate) is a decision of its own for every (outer, inner, context) triple."""
+    x, y = var('x'), var('y')
+    inners = [['max', [x, y]], ['min', [x, y]], ['abs', x], ['-', ['abs', x], num(1)], ['neg', ['min', [x, y]]],
+              ['-', ['max', [x, num(0.5)]], y], ['abs', ['-', x, y]]]
+    outers = [lambda e: ['abs', e], lambda e: ['max', [e, num(0.5)]], lambda e: ['min', [e, num(1)]], lambda e: ['neg', ['abs', e]],
+              lambda e: ['*', num(-2), ['abs', e]]]
+    profs = [pr for pr in PROFILES if pr[0] in ('straddle', 'int', 'mixed', 'signed')]
+    out = []
+    i = 0
+    for mk in outers:
+        for inner in inners:
+            e = mk(inner)
+            for pname, dx, dy, extra in profs:
+                doms = {'x': dx, 'y': dy, 'p': D('Boolean'), 'q': D('Boolean')}
+                cap = [row(['+', x, y], '<=', num(3))] + extra
+                for d in ('min', 'max'):
+                    out.append({'fam': 'Mn', 'profile': pname, 'model': mk_model(d, ['+', ['+', e, x], y], [dict(c) for c in cap], dict(doms))})
+                    out.append({'fam': 'Mn', 'profile': pname, 'model': mk_model(d, ['-', num(3), e], [dict(c) for c in cap], dict(doms))})
+                for cmp_ in ('<=', '>=', '='):
+                    i += 1
+                    k = (1, 0, 2, -1)[i % 4]
+                    out.append({'fam': 'Mn', 'profile': pname, 'model': mk_model('min' if i % 2 else 'max', ['+', x, y], [row(e, cmp_, num(k))] + [dict(c) for c in extra], dict(doms))})
+    return out
+
+
 def diverging_family(bounded=False):
     """infeasible (and a few feasible) models on which bound propagation does not converge: each round doubles or
     shifts a bound, until a product or a sum of end points overflows or the step limit is reached. What is published
